@@ -441,6 +441,8 @@ type v16Obs struct {
 	tbytes    []byte
 	listened  bool
 	udpRelay  bool
+	udpThird  bool // a datagram from a source address other than the client's was relayed
+	probes    []v16Probe
 	panicMsg  string
 	hang      bool
 	handleErr error
@@ -508,7 +510,7 @@ func v16Provision(cfg v16Cfg) (*Socks5Handler, error, context.CancelFunc) {
 	return h, err, cancel
 }
 
-func v16Run(h *Socks5Handler, tgt *v16Target, chunks [][]byte, udpProbe bool) (o v16Obs) {
+func v16Run(h *Socks5Handler, tgt *v16Target, chunks [][]byte, udpProbe bool, udpHost string, udpPort int) (o v16Obs) {
 	before := tgt.count()
 	conn := v16NewConn(chunks)
 	cx := layer4.WrapConnection(conn, nil, zap.NewNop())
@@ -529,7 +531,11 @@ func v16Run(h *Socks5Handler, tgt *v16Target, chunks [][]byte, udpProbe bool) (o
 			_, rep, port := v16Mask(conn.out)
 			conn.mu.Unlock()
 			if rep == 0 && port != 0 {
-				o.udpRelay = v16UDPProbe(port)
+				o.probes = v16UDPProbes(port, udpHost, udpPort)
+				for _, p := range o.probes {
+					o.udpRelay = o.udpRelay || p.relayed
+					o.udpThird = o.udpThird || (p.third && p.relayed)
+				}
 			}
 		}
 	case <-done:
@@ -560,26 +566,102 @@ func v16Run(h *Socks5Handler, tgt *v16Target, chunks [][]byte, udpProbe bool) (o
 	return
 }
 
-// send one SOCKS5 UDP datagram through the announced relay port to a loopback UDP recorder
-func v16UDPProbe(port int) bool {
+// UDP datagrams sent to the announced relay port from several source addresses, each asking to be
+// forwarded to one loopback UDP recorder: (1) another address of this machine standing for a third
+// party, (2) the client's address with an arbitrary port, (3) last, a sentinel from exactly the
+// address the client announced in its request (any loopback address if it announced 0.0.0.0:0),
+// which the library's check lets through. The relay handles datagrams one after the other, so
+// when the sentinel has arrived the fate of the earlier ones is known without waiting for a timeout.
+type v16Probe struct {
+	src     net.IP
+	port    int
+	third   bool
+	relayed bool
+}
+
+func v16UDPProbes(relayPort int, dstHost string, dstPort int) []v16Probe {
+	dst := net.ParseIP(dstHost)
+	if dst == nil {
+		return nil
+	}
 	recv, err := net.ListenUDP("udp4", &net.UDPAddr{IP: net.IPv4(127, 0, 0, 1)})
 	if err != nil {
-		return false
+		return nil
 	}
 	defer recv.Close()
 	rp := recv.LocalAddr().(*net.UDPAddr).Port
-	c, err := net.DialUDP("udp4", nil, &net.UDPAddr{IP: net.IPv4(127, 0, 0, 1), Port: port})
-	if err != nil {
-		return false
+	type plan struct {
+		from  net.IP
+		port  int
+		third bool
 	}
-	defer c.Close()
-	pkt := []byte{0, 0, 0, 1, 127, 0, 0, 1, byte(rp >> 8), byte(rp)}
-	pkt = append(pkt, "verif-udp"...)
-	c.Write(pkt)
-	recv.SetReadDeadline(time.Now().Add(500 * time.Millisecond))
+	var plans []plan
+	if other := v16OtherAddr(); other != nil {
+		plans = append(plans, plan{other, 0, true})
+	}
+	plans = append(plans, plan{net.IPv4(127, 0, 0, 1), 0, false})
+	sentinel := plan{dst, dstPort, false}
+	if dst.IsUnspecified() {
+		sentinel.from = net.IPv4(127, 0, 0, 1)
+	} else if !dst.IsLoopback() {
+		return nil
+	}
+	plans = append(plans, sentinel)
+	var probes []v16Probe
+	for i, pl := range plans {
+		network := "udp4"
+		if pl.from.To4() == nil {
+			network = "udp6"
+		}
+		c, err := net.DialUDP(network, &net.UDPAddr{IP: pl.from, Port: pl.port}, &net.UDPAddr{IP: pl.from, Port: relayPort})
+		if err != nil {
+			return nil
+		}
+		pkt := []byte{0, 0, 0, 1, 127, 0, 0, 1, byte(rp >> 8), byte(rp)}
+		pkt = append(pkt, fmt.Sprintf("verif-udp-%d", i)...)
+		c.Write(pkt)
+		la := c.LocalAddr().(*net.UDPAddr)
+		ip := la.IP
+		if ip4 := ip.To4(); ip4 != nil {
+			ip = ip4
+		}
+		probes = append(probes, v16Probe{src: ip, port: la.Port, third: pl.third})
+		c.Close()
+	}
+	recv.SetReadDeadline(time.Now().Add(2 * time.Second))
 	buf := make([]byte, 64)
-	n, _, err := recv.ReadFromUDP(buf)
-	return err == nil && string(buf[:n]) == "verif-udp"
+	sentinelSeen := false
+	for {
+		n, _, err := recv.ReadFromUDP(buf)
+		if err != nil {
+			if sentinelSeen {
+				return probes
+			}
+			return nil // the sentinel did not arrive: nothing can be concluded
+		}
+		var i int
+		if _, err := fmt.Sscanf(string(buf[:n]), "verif-udp-%d", &i); err == nil && i >= 0 && i < len(probes) {
+			probes[i].relayed = true
+			if i == len(probes)-1 {
+				// a short grace period in case the kernel delivered the datagrams out of order
+				sentinelSeen = true
+				recv.SetReadDeadline(time.Now().Add(40 * time.Millisecond))
+			}
+		}
+	}
+}
+
+// an IPv4 address of this machine that is not loopback (nil if there is none)
+func v16OtherAddr() net.IP {
+	addrs, _ := net.InterfaceAddrs()
+	for _, a := range addrs {
+		if n, ok := a.(*net.IPNet); ok {
+			if ip4 := n.IP.To4(); ip4 != nil && !ip4.IsLoopback() && !ip4.IsLinkLocalUnicast() {
+				return ip4
+			}
+		}
+	}
+	return nil
 }
 
 // ---------------------------------------------------------------- engine
@@ -672,9 +754,10 @@ func (e *v16Engine) session(cfg v16Cfg, h *Socks5Handler, sc v16Script) {
 			return
 		}
 	}
-	udpProbe := rq.present && rq.cmd == 3 && rq.host == "0.0.0.0" && rq.port == 0
+	// UDP relay probes for ASSOCIATE requests that announce a literal loopback / unspecified address
+	udpProbe := rq.present && rq.cmd == 3 && rq.atyp != 3 && (rq.host == "0.0.0.0" || rq.host == "127.0.0.1" || rq.host == "::1") && (rq.port == 0 || rq.port == e.tgt.port || rq.port == e.gen.closed)
 	chunks := v16Chunks(e.r, sc.b)
-	o := v16Run(h, e.tgt, chunks, udpProbe)
+	o := v16Run(h, e.tgt, chunks, udpProbe, rq.host, rq.port)
 	input := map[string]any{"config": cfg.name, "commands": cfg.cmds, "credentials": fmt.Sprint(cfg.creds), "script": sc.name, "bytes": hex.EncodeToString(sc.b)}
 	if o.panicMsg != "" {
 		e.out.Fail("C16:handler:panic", o.panicMsg, input)
@@ -711,8 +794,12 @@ func (e *v16Engine) session(cfg v16Cfg, h *Socks5Handler, sc v16Script) {
 		envt = append(envt, fmt.Sprintf("(%s,%s)", cHex([]byte("env."+k)), cHex([]byte(v))))
 	}
 	sortStrings(envt)
-	term := fmt.Sprintf("CSess %s [%s] [%s] %s %d %d %s true %s %s %s %s", v16HexList(cfg.cmds), strings.Join(creds, "; "), strings.Join(envt, "; "),
-		"\""+resolved+"\"", dialr, e.listenr, cHex(sc.b), cHex(o.out), cBool(o.dialled), cHex(o.tbytes), cBool(o.listened))
+	prs := make([]string, len(o.probes))
+	for i, p := range o.probes {
+		prs[i] = fmt.Sprintf("(%s,%d,%s)", cHex(p.src), p.port, cBool(p.relayed))
+	}
+	term := fmt.Sprintf("CSess %s [%s] [%s] %s %d %d %s true %s %s %s %s [%s]", v16HexList(cfg.cmds), strings.Join(creds, "; "), strings.Join(envt, "; "),
+		"\""+resolved+"\"", dialr, e.listenr, cHex(sc.b), cHex(o.out), cBool(o.dialled), cHex(o.tbytes), cBool(o.listened), strings.Join(prs, "; "))
 	cls := "neg-only"
 	switch {
 	case o.dialled:
@@ -729,7 +816,7 @@ func (e *v16Engine) session(cfg v16Cfg, h *Socks5Handler, sc v16Script) {
 		cls = "silent"
 	}
 	e.out.Case(term, cls, len(o.raw) > 2 || (len(o.raw) == 2 && o.raw[1] != 0xff),
-		map[string]any{"config": cfg.name, "script": sc.name, "out": hex.EncodeToString(o.raw), "dialled": o.dialled, "listened": o.listened, "udp_relay": o.udpRelay})
+		map[string]any{"config": cfg.name, "script": sc.name, "out": hex.EncodeToString(o.raw), "dialled": o.dialled, "listened": o.listened, "udp_relay": o.udpRelay, "udp_relay_other_source": o.udpThird})
 }
 
 func sortStrings(s []string) {
@@ -777,6 +864,9 @@ func (e *v16Engine) oracle(cfg v16Cfg, sc v16Script, sp v16Spec, o v16Obs, rep i
 		if authAccepted && !cfg.configured(sp.auth) {
 			e.out.Fail("C16:auth:wrong-credentials-accepted", fmt.Sprintf("authentication status 00 for %v", sp.auth), input)
 		}
+	}
+	if credsConfigured && o.udpThird {
+		e.out.Fail("C16:auth:udp-relay-accepts-other-source", fmt.Sprintf("UDP ASSOCIATE by the authenticated client at %v with DST 0.0.0.0:0: a datagram sent from %v (no SOCKS session, no authentication) to the relay port was forwarded to its destination (RFC 1928 section 7: MUST drop datagrams from any other source IP)", "127.0.0.1", v16OtherAddr()), input)
 	}
 	if o.dialled && !(sp.reqComplete && sp.cmd == 1 && cfg.connect) {
 		e.out.Fail("C16:command:disabled-command-executed", fmt.Sprintf("the target saw a connection; request command=%d complete=%v; CONNECT enabled=%v", sp.cmd, sp.reqComplete, cfg.connect), input)
@@ -882,7 +972,7 @@ func TestVerifC16(t *testing.T) {
 				envt = append(envt, fmt.Sprintf("(%s,%s)", cHex([]byte("env."+k)), cHex([]byte(v))))
 			}
 			sortStrings(envt)
-			out.Case(fmt.Sprintf("CSess %s [%s] [%s] \"\" 2 2 \"\" false \"\" false \"\" false", v16HexList(cfg.cmds), strings.Join(creds, "; "), strings.Join(envt, "; ")),
+			out.Case(fmt.Sprintf("CSess %s [%s] [%s] \"\" 2 2 \"\" false \"\" false \"\" false []", v16HexList(cfg.cmds), strings.Join(creds, "; "), strings.Join(envt, "; ")),
 				"provision-error", false, map[string]any{"config": cfg.name, "err": err.Error()})
 		}
 		handlers[hk{ci, ki}] = h
@@ -974,6 +1064,8 @@ func TestVerifC16(t *testing.T) {
 				run(ci, ki, build(cfg, m, 0, hasCreds, 5, cmd, 0, 0, tgt.port, "hello"))
 				count++
 			}
+			run(ci, ki, build(cfg, m, 0, hasCreds, 5, 3, 0, 8, 0, "")) // UDP ASSOCIATE announcing 0.0.0.0:0, as clients usually do
+			count++
 			if hasCreds {
 				for ak := 1; ak <= 7; ak++ {
 					run(ci, ki, build(cfg, 1, ak, true, 5, 1, 0, 0, tgt.port, "hello"))
